@@ -15,3 +15,4 @@ pub mod openqasm;
 pub mod phase;
 pub mod rankwidth;
 pub mod scalar;
+pub mod simplify;
